@@ -66,6 +66,11 @@ def applyBatch (s : Store Î½) : List (Nat Ã— Upd Î½) â†’ Store Î½ Ã— List (Res Î
     let (s', rs) := applyBatch s1 rest
     (s', r :: rs)
 
+/-- `LFSM.RecoverFromSnapshot` (storage/kv/raft.go): the receiver's map is REPLACED by the decoded
+snapshot - nothing of what it held before survives (seeded change C13-c merged instead: a lagging
+node kept deleted records); `SaveSnapshot` of a store is the store (`PrepareSnapshot` copies it) -/
+def restoreSnapshot (_old snap : Store Î½) : Store Î½ := snap
+
 /-! ### lookups of the string store -/
 
 /-- `path.Match` for the pattern shapes the callers use: a literal, or a literal prefix followed by
